@@ -39,8 +39,11 @@ Definition ext_whitelist : list string :=
    "(github.com/launchdarkly/go-sdk-common/v3/ldvalue.OptionalInt)."; "(github.com/launchdarkly/go-sdk-common/v3/ldvalue.OptionalBool).";
    "(github.com/launchdarkly/go-sdk-common/v3/ldvalue.OptionalString)."; "github.com/launchdarkly/go-sdk-common/v3/ldattr.";
    "(github.com/launchdarkly/go-sdk-common/v3/ldattr.Ref)."; "github.com/launchdarkly/go-semver.";
-   "(github.com/launchdarkly/go-semver.Version)."; "crypto/sha1.Sum"; "encoding/hex.Encode"; "fmt.Sprintf"; "strconv.AppendInt";
-   "strings.HasSuffix"; "strings.HasPrefix"; "strings.Contains"; "(time.Time)."; "time.Date"; "time.UnixMilli";
+   "(github.com/launchdarkly/go-semver.Version)."; "crypto/sha1."; "encoding/hex."; "fmt.Sprintf"; "fmt.Sprint"; "fmt.Errorf"; "errors.New";
+   (* side-effect-free standard-library packages: a refactoring that uses another function of these is not a reason
+      to fail (math/rand, time.Now, os, sync, sort -- which writes its argument -- are deliberately absent) *)
+   "strconv."; "strings."; "bytes."; "math."; "unicode."; "unicode/utf8.";
+   "(time.Time)."; "time.Date"; "time.Unix"; "time.UnixMilli"; "(time.Duration).";
    "regexp.Compile"; "(*regexp.Regexp).MatchString"].
 
 Theorem external_calls_whitelisted : forall n f e,
